@@ -311,6 +311,15 @@ func preloadCache(v9 bool) string {
 	} else {
 		c.I.Dump(p)
 	}
+	// the file was saved by an EARLIER run: its entries are a day old (deterministically "not of this second",
+	// whatever the wall clock does; the caches read the virtual clock in this build)
+	if b, err := os.ReadFile(p); err == nil {
+		re := regexp.MustCompile(`"Timestamp":(\d+)`)
+		b = re.ReplaceAllFunc(b, func(m []byte) []byte {
+			return []byte(fmt.Sprintf(`"Timestamp":%d`, venv.Epoch().Unix()-86400)) // a day before the virtual clock starts
+		})
+		os.WriteFile(p, b, 0644)
+	}
 	return p
 }
 
